@@ -211,7 +211,7 @@ class C14(PropBase):
     rule = ("a case describes a whole dump: CPU architecture x platform id, 0..32 threads (duplicate / missing ids, context valid / "
             "absent / wrong flags / truncated, own stack or null descriptor), thread names (duplicates, unreadable), exception record "
             "(thread absent / present / equal to the dump-writer thread, code, flags, 0..15 parameters, context), Breakpad info with every "
-            "validity combination (also truncated / over-long streams), misc info flag combinations and stream lengths below / above the structure, Linux status stream as raw bytes (hostile texts), modules, overlapping unloaded modules, memory regions. "
+            "validity combination (also truncated / over-long streams), misc info flag combinations and stream lengths below / above the structure, Linux status stream as raw bytes (hostile texts), little- and big-endian dumps, regions in a MemoryList or a Memory64List, modules, overlapping unloaded modules, memory regions. "
             "The harness synthesizes it with minidump-synth and runs process_minidump. Non-trivial = at least two threads and an exception "
             "record or Breakpad info; distinct = distinct case lines")
     trusted_base = [
@@ -535,7 +535,7 @@ class C14(PropBase):
     def gen_cases(self, tier, seed):
         rng = Rng(seed)
         dist = {}
-        n = 6000 if tier == "quick" else 60000
+        n = 6000 if tier == "quick" else 150000
         return [self.gen_case(rng, dist) for _ in range(n)], dist, False
 
     # ------------------------------------------------------------------ canonical forms
